@@ -81,10 +81,13 @@ pub async fn discover_remote_with_meta(
 ) -> Result<MetaMap, Box<dyn std::error::Error>> {
     let escaped = remote_root.replace('\\', "\\\\").replace('\'', "\\'");
     // %s size, %T@ mtime (float secs), %p path — TAB-separated, NUL-terminated.
+    // `CDPATH=`: with CDPATH set in the remote account, `cd` of a relative root may land in
+    // another directory and PRINTS the directory it chose, which would become the head of
+    // the first record (that file was then silently missing from the listing).
     let output = tokio::process::Command::new("ssh")
         .arg(host)
         .arg(format!(
-            "cd $'{escaped}' && find . -type f -printf '%s\\t%T@\\t%p\\0'"
+            "CDPATH= cd $'{escaped}' && find . -type f -printf '%s\\t%T@\\t%p\\0'"
         ))
         .output()
         .await?;
